@@ -262,6 +262,9 @@ class Inliner:
     # -- resolution ----------------------------------------------------------
     def resolve(self, call):
         f = call.func
+        if isinstance(f, ast.Name) and f.id in getattr(self, "local_funcs", {}) \
+                and id(call) in getattr(self, "local_allowed", ()):
+            return self.local_funcs[f.id], False
         if isinstance(f, ast.Name) and _is_private(f.id) and \
                 f.id not in self.exclude and f.id in self.module_funcs:
             return self.module_funcs[f.id], False
@@ -279,15 +282,46 @@ class Inliner:
         key = id(fn)
         if key in self._cache:
             return self._cache[key]
-        if not any(isinstance(n, ast.Call) and self.resolve(n) is not None
-                   for n in ast.walk(fn)):
-            self._cache[key] = fn
-            return fn
-        new = copy.deepcopy(fn)
-        new.body = self._block(new.body, 0, fn.name)
-        ast.fix_missing_locations(new)
-        self._cache[key] = new
-        return new
+        # local predicate / accessor functions (a nested def that is one
+        # expression over its parameters and names it does not rebind) are
+        # inlined at their call sites inside fn
+        self.local_funcs = {}
+        stored = {}
+        for n in ast.walk(fn):
+            if isinstance(n, ast.Name) and isinstance(n.ctx, ast.Store):
+                stored[n.id] = stored.get(n.id, 0) + 1
+        for st in fn.body:
+            if isinstance(st, ast.FunctionDef) and not _has_yield(st) and \
+                    len(_body(st)) == 1 and isinstance(_body(st)[0], ast.Return) \
+                    and expression_form(st) is not None and \
+                    sum(1 for x in ast.walk(fn) if isinstance(x, ast.FunctionDef)
+                        and x.name == st.name) == 1 and not st.args.vararg \
+                    and not st.args.kwarg:
+                free = {x.id for x in ast.walk(st) if isinstance(x, ast.Name)
+                        and isinstance(x.ctx, ast.Load)} - {
+                            a.arg for a in st.args.args}
+                if all(stored.get(v, 0) <= 1 for v in free):
+                    self.local_funcs[st.name] = st
+        try:
+            new = copy.deepcopy(fn)
+            # (only where a local predicate filters a comprehension: the
+            # rules read such filters; other uses stay calls)
+            self.local_allowed = {
+                id(c) for comp in ast.walk(new)
+                if isinstance(comp, ast.comprehension)
+                for f_ in comp.ifs for c in ast.walk(f_)
+                if isinstance(c, ast.Call)}
+            if not any(isinstance(n, ast.Call) and self.resolve(n) is not None
+                       for n in ast.walk(new)):
+                self._cache[key] = fn
+                return fn
+            new.body = self._block(new.body, 0, fn.name)
+            ast.fix_missing_locations(new)
+            self._cache[key] = new
+            return new
+        finally:
+            self.local_funcs = {}
+            self.local_allowed = set()
 
     # -- statements ----------------------------------------------------------
     def _block(self, stmts, depth, owner):
@@ -429,6 +463,14 @@ class Inliner:
                 for n in ast.walk(new):
                     ast.copy_location(n, node)
                 inl.inlined.append(h.name)
+                # helpers called by the helper's own expression
+                self.nest = getattr(self, "nest", 0) + 1
+                try:
+                    if self.nest <= MAX_DEPTH:
+                        new = self.generic_visit(new) if not isinstance(
+                            new, ast.Call) else self.visit_Call(new)
+                finally:
+                    self.nest -= 1
                 return new
 
         # only the statement's own expressions, not nested statement lists
